@@ -26,7 +26,7 @@ RULE = ('argument lists of 1-6 in seeded order mixing trashable entries, missing
         '(the list, then each argument alone under the same faults and clock); non-trivial = the list mixes at least one failing and one '
         'trashable argument; distinct = (sorted multiset of argument classes, options, position of the first failing argument)')
 ASSUMPTIONS = ['independence is claimed for arguments none of which is an ancestor, alias, link target or duplicate of another']
-PROBES = ['arg-empty-string', 'lists', 'solo-runs', 'mixed-lists', 'arg-trashed', 'arg-missing', 'arg-dot', 'arg-invalid-utf8', 'arg-fault-immutable',
+PROBES = ['typed-ahead-replies-with-and-without-the-refused-arguments', 'arg-empty-string', 'lists', 'solo-runs', 'mixed-lists', 'arg-trashed', 'arg-missing', 'arg-dot', 'arg-invalid-utf8', 'arg-fault-immutable',
           'arg-fault-dir', 'arg-fault-info-creation', 'arg-declined', 'arg-missing-forced', 'duplicates-lists', 'exit0', 'exit-nonzero']
 TECHNIQUE = 'deterministic simulation with injected persistent conditions; differential: each argument alone vs inside the list on identically rebuilt worlds'
 LEVEL_TEXT = 'seeded exploration of argument lists x orders x options x injected failures; exit status, per-argument diagnostics and independence (by differential)'
@@ -295,6 +295,32 @@ def check(sim, case, st):
                 others = '+'.join(sorted(set(c for j, c in enumerate(classes) if j != i)))
                 bad('outcome-depends-on-other-arguments', '%s/others=%s' % (classes[i], others),
                     'argument %r alone: %r; as member %d of the list: %r' % (a, solo, i, inlist))
+    # the same replies typed ahead (a pipe, a script): an argument that is refused or does not exist is not worth a question, so
+    # taking it off the list changes nothing for the other arguments - each still meets the reply it met before
+    if inter and len(files) > 1 and not case.get('faults') and not res:
+        keep = [i for i, c in enumerate(classes) if c not in ('dot', 'missing')]
+        if keep and len(keep) < len(files):
+            def fixed(argv_files):
+                c = copy.deepcopy(case)
+                sp = c['procs'][0]
+                sp['argv'] = argv[:argv.index('--') + 1] + argv_files
+                sim.setup(c)
+                b_ = sim.snap()
+                n_ = [OP.name_entry(sim.root, sp.get('cwd', '/'), a, b_, mounts) for a in argv_files]
+                r_ = sim.run(sp)
+                st.sims += 1
+                st.ops += r_.nops
+                o_, _p = OP.judge(sim.root, b_, sim.snap(), n_, mounts, OP.candidate_skeleton(sp.get('env', {}), sp.get('uid', 1000), mounts))
+                return [(o.state, o.tdir) for o in o_]
+            full = fixed(files)
+            part = fixed([files[i] for i in keep])
+            st.probes['typed-ahead-replies-with-and-without-the-refused-arguments'] += 1
+            for j, i in enumerate(keep):
+                if full[i] != part[j]:
+                    bad('typed-ahead-reply-taken-by-a-refused-argument', classes[i] + '/others=' + '+'.join(sorted(set(classes[k] for k in range(len(files)) if k not in keep))),
+                        'with the replies %r typed ahead argument %r ends as %r; without the refused / nonexistent arguments on the command line, same replies: %r'
+                        % (spec.get('stdin'), files[i], full[i], part[j]))
+                    break
     failing = [c for c in classes if c != 'entry']
     if failing and len(failing) < len(classes):
         st.probes['mixed-lists'] += 1
